@@ -186,8 +186,8 @@ pub fn stress(alpha: &[char], foreign: char, rng: &mut Rng, n: usize) -> Vec<Vec
     for c in alpha.iter().take(2) {
         out.push(vec![*c; n]);
     }
-    // only unlexable characters
-    out.push(vec![foreign; n]);
+    // only unlexable characters (every character is its own error: linear, so ten times longer)
+    out.push(vec![foreign; n * 10]);
     // long near-matches: a long run followed by a killer, repeated
     let mut w = vec![];
     while w.len() < n {
